@@ -45,8 +45,12 @@ def outcome(thunk):
 
 
 def report(el):
+    """validation report; the warning texts quote el.to_er7(), which for a parentless element uses its own (default)
+    encoding characters - a call that was not given its characters - so warnings are compared for messages only"""
     r = el.validate(return_errors=True)
-    return [str(e) for e in r.errors], [str(w) for w in r.warnings]
+    if type(el).__name__ == 'Message':
+        return [str(e) for e in r.errors], [str(w) for w in r.warnings]
+    return [str(e) for e in r.errors], len(r.warnings)
 
 
 def corpus(v, level):
@@ -106,6 +110,40 @@ def corpus(v, level):
         add('Field(datatype):%s:%s' % (dt, val[:6]),
             lambda dt=dt, val=val: (lambda f: (setattr(f, 'value', val), f.to_er7(ec), f.datatype)[1:])(
                 core.Field('ZZZ_1', datatype=dt, version=v, validation_level=level)))
+    # datatypes that are base datatypes only in some versions (TN, CM, DTM, GTS, SNM, IS, TS ...): components and fields of
+    # those types holding sub-component / component separators take the TOLERANT "more children than a base datatype
+    # allows" paths, which must look the datatype up in the element's own version
+    varying = ('TN', 'CM', 'DTM', 'GTS', 'SNM', 'IS', 'ID', 'TS', 'ST', 'NM')
+    seen_dt = set()
+    for dtc in tables.complex_datatypes(v):
+        for crow in tables.components(v, dtc):
+            if crow.ok and crow.card[1] != 0 and crow.datatype in varying and ('c', crow.datatype) not in seen_dt:
+                seen_dt.add(('c', crow.datatype))
+                add('parse_component:%s:%s' % (crow.datatype, crow.name),
+                    lambda crow=crow: (lambda c: (c.to_er7(ec), c.datatype))(
+                        parser.parse_component('a&b', name=crow.name, version=v, validation_level=level,
+                                               encoding_chars=dict(ec))))
+    for sname, rows in sorted(segs.items()):
+        for r in rows or []:
+            if r.ok and r.card[1] != 0 and r.datatype in varying and ('f', r.datatype) not in seen_dt:
+                seen_dt.add(('f', r.datatype))
+                add('parse_field:%s:%s' % (r.datatype, r.name),
+                    lambda r=r: (lambda f: (f.to_er7(ec), f.datatype))(
+                        parser.parse_field('a&b^c', name=r.name, version=v, validation_level=level,
+                                           encoding_chars=dict(ec))))
+                add('parse_segment:%s:%s' % (r.datatype, r.name),
+                    lambda r=r, sname=sname: (lambda sg: (sg.to_er7(ec), report(sg)))(
+                        parser.parse_segment(sname + '|' * r.num + 'a&b^c~d', version=v, validation_level=level,
+                                             encoding_chars=dict(ec))))
+            if r.ok and r.card[1] != 0 and r.kind == 'sequence':
+                for crow in tables.components(v, r.datatype):
+                    if crow.ok and crow.card[1] != 0 and crow.datatype in ('TN', 'CM', 'DTM', 'GTS', 'SNM', 'IS', 'TS') \
+                            and ('fc', crow.datatype) not in seen_dt:
+                        seen_dt.add(('fc', crow.datatype))
+                        add('parse_field-component:%s:%s.%s' % (crow.datatype, r.name, crow.name),
+                            lambda r=r, crow=crow: (lambda f: (f.to_er7(ec)))(
+                                parser.parse_field('^' * (crow.num - 1) + 'a&b', name=r.name, version=v,
+                                                   validation_level=level, encoding_chars=dict(ec))))
     add('parse_field', lambda: parser.parse_field('A^B&C^' + 'y' * 250, name='PID_5', version=v, validation_level=level,
                                                   encoding_chars=dict(ec)).to_er7(ec))
     add('parse_field:unnamed', lambda: parser.parse_field('A^B&C', version=v, validation_level=level,
